@@ -17,6 +17,7 @@
 From Coq Require Import ZArith List Bool.
 From Geo Require Import Base.GoPrim Gen.CellIDCov Model.Coverer.
 From Geo Require Import Proofs.C05_CellFacts Proofs.C05_CellUnion Proofs.C05_Coverer Proofs.C05_Fast Proofs.C05_Main Proofs.C05_CuRegion.
+From Geo Require Import Gen.CellID.  (* s2_CellID_Level *)
 Import ListNotations.
 Local Open Scope Z_scope.
 
